@@ -463,44 +463,79 @@ example :
     (by rw [abs_le]; constructor <;> norm_num) 0
   exact ⟨v, hv⟩
 
-/-! ## stacks of two and three hinges (Euler-angle extraction `x–y'–z''`): NOT proved here
+/-! ## stacks of two and three hinges (Euler-angle extraction `x–y'–z''`) -/
 
-The full statements are kept below (they type-check when un-commented).  What is missing: the
-evaluation of `axis_angle_ang` on the product rotation `R(a₀,q₀)·R(a₁,q₁)(·R(a₂,q₂))` — line of
-nodes `cos q₁·(cos q₀ a₁ + sin q₀ a₀×a₁)`, `theta = arccos(cos q₁)·sign(sin q₁)`, and for three hinges
-`phi` with the parity `a₂ = ±a₀×a₁`.  Until then these stacks are covered by the correspondence
-(legs a2/a3: model = implementation on two- and three-hinge links) and by the Spec evaluation (leg b: the round
-trip itself on every generated `hh`/`hhh` link, either handedness).  Velocities of stacked hinges are
-outside the property (known finding K1).
-
-```
-def inverse_two_hingesStmt : Prop :=
-  ∀ (parent : Option (Tf ℝ × Motion ℝ)) (lk : LinkP ℝ) (d0 d1 : DofP ℝ) (a0 a1 : V3 ℝ)
-    (q0 q1 qd0 qd1 : ℝ) (pidx : Int),
-    Q4.normSq (parentOr parent).1.rot = 1 → Q4.normSq lk.tf.rot = 1 → lk.joint.rot = ⟨1, 0, 0, 0⟩ →
-    d0.motion = ⟨a0, ⟨0, 0, 0⟩⟩ → d1.motion = ⟨a1, ⟨0, 0, 0⟩⟩ →
-    V3.dot a0 a0 = 1 → V3.dot a1 a1 = 1 → V3.dot a0 a1 = 0 →
-    |q0| ≤ 6 / 5 → |q1| ≤ 6 / 5 →
+/-- **two stacked hinges with orthonormal axes** (Euler extraction `x–y'`): for `q₀ ∈ (−π, π]`,
+`|q₁| ≤ 1.2` both joint positions are recovered, for any (unit) parent frame, root or child, any
+anchor.  (Velocities of stacked hinges are outside the property: known finding K1.) -/
+theorem inverse_two_hinges (parent : Option (Tf ℝ × Motion ℝ)) (lk : LinkP ℝ)
+    (hp : Q4.normSq (parentOr parent).1.rot = 1)
+    (hlk : Q4.normSq lk.tf.rot = 1) (hjr : lk.joint.rot = ⟨1, 0, 0, 0⟩)
+    (d0 d1 : DofP ℝ) (a0 a1 : V3 ℝ) (hd0 : d0.motion = ⟨a0, ⟨0, 0, 0⟩⟩) (hd1 : d1.motion = ⟨a1, ⟨0, 0, 0⟩⟩)
+    (h00 : V3.dot a0 a0 = 1) (h11 : V3.dot a1 a1 = 1) (h01 : V3.dot a0 a1 = 0)
+    (q0 q1 qd0 qd1 : ℝ) (hq0 : -Real.pi < q0) (hq0' : q0 ≤ Real.pi) (hq1 : |q1| ≤ 6 / 5) (pidx : Int) :
     let l : Kin.LinkIn ℝ := ⟨.two, [q0, q1], [qd0, qd1], [d0, d1]⟩
     let w := w2jLink lk (parentOr parent).1 (parentOr parent).2
       (fwdLink parent lk l).1 (fwdLink parent lk l).2
-    ∃ qd', inverseLink .two w.1 w.2.1 pidx [d0.motion, d1.motion] = some ([q0, q1], qd')
+    ∃ qd', inverseLink .two w.1 w.2.1 pidx [d0.motion, d1.motion] = some ([q0, q1], qd') := by
+  intro l w
+  have hjc := jcalc_two_hinges d0 d1 a0 a1 q0 q1 qd0 qd1 hd0 hd1 h00 h11
+  have hj : Q4.normSq (Kin.jcalc l).1.rot = 1 := by
+    rw [hjc]; simp only
+    rw [normSq_quatMul, quatRotAxis_normSq a0 q0 h00, quatRotAxis_normSq a1 q1 h11]; ring
+  have hw1 : w.1 = _ := worldToJoint_forward_id parent lk l hp hlk hjr hj
+  rw [hjc] at hw1
+  obtain ⟨qd', hx⟩ := xDof_two_hinges a0 a1 h00 h11 h01 ⟨0, 0, 0⟩ q0 q1 w.2.1 pidx hq0 hq0' hq1
+  refine ⟨qd', ?_⟩
+  simp only [inverseLink, List.length_cons, List.length_nil, LinkType.qdWidth, if_true, hd0, hd1]
+  rw [hw1]; exact hx
 
-def inverse_three_hingesStmt : Prop :=
-  ∀ (parent : Option (Tf ℝ × Motion ℝ)) (lk : LinkP ℝ) (d0 d1 d2 : DofP ℝ) (a0 a1 a2 : V3 ℝ)
-    (q0 q1 q2 qd0 qd1 qd2 : ℝ) (pidx : Int),
-    Q4.normSq (parentOr parent).1.rot = 1 → Q4.normSq lk.tf.rot = 1 → lk.joint.rot = ⟨1, 0, 0, 0⟩ →
-    d0.motion = ⟨a0, ⟨0, 0, 0⟩⟩ → d1.motion = ⟨a1, ⟨0, 0, 0⟩⟩ → d2.motion = ⟨a2, ⟨0, 0, 0⟩⟩ →
-    V3.dot a0 a0 = 1 → V3.dot a1 a1 = 1 → V3.dot a0 a1 = 0 →
-    (a2 = V3.cross a0 a1 ∨ a2 = -V3.cross a0 a1) →
-    |q0| ≤ 6 / 5 → |q1| ≤ 6 / 5 → |q2| ≤ 6 / 5 →
+/-- **three stacked hinges with orthonormal axes of either handedness** (`a₂ = ±a₀×a₁`; Euler
+extraction `x–y'–z''` with parity): for `q₀, q₂ ∈ (−π, π]`, `|q₁| ≤ 1.2` all three joint positions are
+recovered, for any (unit) parent frame, root or child, any anchor. -/
+theorem inverse_three_hinges (parent : Option (Tf ℝ × Motion ℝ)) (lk : LinkP ℝ)
+    (hp : Q4.normSq (parentOr parent).1.rot = 1)
+    (hlk : Q4.normSq lk.tf.rot = 1) (hjr : lk.joint.rot = ⟨1, 0, 0, 0⟩)
+    (d0 d1 d2 : DofP ℝ) (a0 a1 a2 : V3 ℝ) (hd0 : d0.motion = ⟨a0, ⟨0, 0, 0⟩⟩)
+    (hd1 : d1.motion = ⟨a1, ⟨0, 0, 0⟩⟩) (hd2 : d2.motion = ⟨a2, ⟨0, 0, 0⟩⟩)
+    (h00 : V3.dot a0 a0 = 1) (h11 : V3.dot a1 a1 = 1) (h01 : V3.dot a0 a1 = 0)
+    (h2 : a2 = V3.cross a0 a1 ∨ a2 = -V3.cross a0 a1)
+    (q0 q1 q2 qd0 qd1 qd2 : ℝ) (hq0 : -Real.pi < q0) (hq0' : q0 ≤ Real.pi) (hq1 : |q1| ≤ 6 / 5)
+    (hq2 : -Real.pi < q2) (hq2' : q2 ≤ Real.pi) (pidx : Int) :
     let l : Kin.LinkIn ℝ := ⟨.three, [q0, q1, q2], [qd0, qd1, qd2], [d0, d1, d2]⟩
     let w := w2jLink lk (parentOr parent).1 (parentOr parent).2
       (fwdLink parent lk l).1 (fwdLink parent lk l).2
     ∃ qd', inverseLink .three w.1 w.2.1 pidx [d0.motion, d1.motion, d2.motion]
-      = some ([q0, q1, q2], qd')
-```
--/
+      = some ([q0, q1, q2], qd') := by
+  intro l w
+  -- `a2 = σ·(a0 × a1)` in frame coordinates
+  obtain ⟨σ, hσ, ha2⟩ : ∃ σ : ℝ, σ * σ = 1 ∧ a2 = L a0 a1 ⟨0, 0, σ⟩ := by
+    rcases h2 with h | h
+    · exact ⟨1, by norm_num, by rw [h]; simp [L]⟩
+    · exact ⟨-1, by norm_num, by rw [h]; simp [L, V3.neg_def]⟩
+  have h22 : V3.dot a2 a2 = 1 := by rw [ha2, L_dot a0 a1 h00 h11 h01]; simp [V3.dot, hσ]
+  have hjc := jcalc_three_hinges d0 d1 d2 a0 a1 a2 q0 q1 q2 qd0 qd1 qd2 hd0 hd1 hd2 h00 h11 h22
+  have hj : Q4.normSq (Kin.jcalc l).1.rot = 1 := by
+    rw [hjc]; simp only
+    rw [normSq_quatMul, normSq_quatMul, quatRotAxis_normSq a0 q0 h00, quatRotAxis_normSq a1 q1 h11,
+      quatRotAxis_normSq a2 q2 h22]; ring
+  have hw1 : w.1 = _ := worldToJoint_forward_id parent lk l hp hlk hjr hj
+  rw [hjc] at hw1
+  obtain ⟨qd', hx⟩ := xDof_three_hinges a0 a1 h00 h11 h01 ⟨0, 0, 0⟩ σ q0 q1 q2 hσ w.2.1 pidx
+    hq0 hq0' hq1 hq2 hq2'
+  refine ⟨qd', ?_⟩
+  simp only [inverseLink, List.length_cons, List.length_nil, LinkType.qdWidth, if_true, hd0, hd1, hd2]
+  rw [hw1, ha2]; exact hx
+
+/-- non-vacuity: a left-handed orthonormal hinge triple `(x, y, −z)` and angles inside the chart -/
+example : V3.dot (⟨1, 0, 0⟩ : V3 ℝ) ⟨1, 0, 0⟩ = 1 ∧ V3.dot (⟨0, 1, 0⟩ : V3 ℝ) ⟨0, 1, 0⟩ = 1
+    ∧ V3.dot (⟨1, 0, 0⟩ : V3 ℝ) ⟨0, 1, 0⟩ = 0
+    ∧ (⟨0, 0, -1⟩ : V3 ℝ) = -V3.cross ⟨1, 0, 0⟩ ⟨0, 1, 0⟩
+    ∧ -Real.pi < (-6 / 5 : ℝ) ∧ (-6 / 5 : ℝ) ≤ Real.pi ∧ |(6 / 5 : ℝ)| ≤ 6 / 5 := by
+  refine ⟨by simp [V3.dot], by simp [V3.dot], by simp [V3.dot], by simp [V3.cross], ?_, ?_, ?_⟩
+  · linarith [Real.two_le_pi]
+  · linarith [Real.two_le_pi]
+  · rw [abs_le]; constructor <;> norm_num
 
 /-! ## what the pipelines report -/
 
